@@ -389,6 +389,7 @@ class Simulation:
             if checkpoint_results is not None:
                 raise ValueError('pass either filename or checkpoint_results')
             checkpoint_results = hdf5_io.load(filename)
+            filename = os.path.abspath(filename)  # the __init__ below might change the directory
         if checkpoint_results is None:
             raise ValueError('you need to pass `filename` or `checkpoint_results`')
         options = checkpoint_results['simulation_parameters']
@@ -403,7 +404,29 @@ class Simulation:
         sim.results = checkpoint_results
         if 'measurements' in checkpoint_results:
             sim.results['measurements'] = {k: list(v) for k, v in sim.results['measurements'].items()}
+        if filename is not None:
+            sim._restore_backup_loaded_from(filename)
         return sim
+
+    def _restore_backup_loaded_from(self, checkpoint_filename):
+        """Move the backup file back to :attr:`output_filename` if the checkpoint was loaded from it.
+
+        If we resume from the backup file, a previous :meth:`save_results` was interrupted and the
+        :attr:`output_filename` might be incomplete. The next :meth:`save_results` would nevertheless treat
+        it as the most recent results and replace the (complete) backup with it before writing,
+        such that another failure at that point leaves no complete file at all.
+
+        Parameters
+        ----------
+        checkpoint_filename : str
+            Absolute filename from which the checkpoint was loaded (successfully).
+        """
+        backup_filename = self._backup_filename
+        if backup_filename is None or self.output_filename is None:
+            return
+        if os.path.abspath(backup_filename) == checkpoint_filename and backup_filename.exists():
+            self.logger.info('resumed from backup file: restore it as %s', self.output_filename)
+            backup_filename.replace(self.output_filename)
 
     def resume_run(self):
         """Resume a simulation that was initialized from a checkpoint.
@@ -1371,6 +1394,7 @@ def init_simulation_from_checkpoint(
         if checkpoint_results is not None:
             raise ValueError('pass either filename or checkpoint_results')
         checkpoint_results = hdf5_io.load(filename)
+        filename = os.path.abspath(filename)  # initializing the simulation might change the directory
     if checkpoint_results is None:
         raise ValueError('you need to pass `filename` or `checkpoint_results`')
     if checkpoint_results['finished_run']:
@@ -1386,6 +1410,8 @@ def init_simulation_from_checkpoint(
         update_recursive(options, update_sim_params)
 
     sim = SimClass.from_saved_checkpoint(checkpoint_results=checkpoint_results, **simulation_class_kwargs)
+    if filename is not None:
+        sim._restore_backup_loaded_from(filename)
     return sim
 
 
